@@ -618,4 +618,119 @@ example : (crossValidateOn (ε := String) (σ := Nat) true true 4 2 1 1 [0, 1, 2
     (fun o => (o.result, o.finalR, o.finalT)) =
     some (.error "fit:1", [0, 1, 2, 3], [10, 11, 12, 13]) := by decide
 
+/-- **the full clause on the real calling form**: for every `0 < k ≤ n`, every record / target width
+`p, t > 0`, every list of parameter sets and every predict-then-eval function: if model `j` fitted
+on fold `i`'s training view is `md i j` and its evaluation on validation block `i` is the row
+`sc i j` (`nt` entries), then `cross_validate` returns a `models × nt` table whose entry `(j, c)` is
+the arithmetic mean over the `k` folds of `sc i j [c]`, and the dataset is handed back unchanged.
+(Composition of `cv_on_spec`, `cvFoldM_script` and `cv_is_mean`.) -/
+theorem cv_on_is_mean {α β ε μ σ} [Field σ] (n k p t : Nat) (recs : List α) (tgts : List β)
+    (params : List (List α × List β → Except ε μ))
+    (score : μ → List α × List β → Except ε (List σ)) (nt : Nat)
+    (hk : 0 < k) (hn : k ≤ n) (hp : 0 < p) (ht : 0 < t)
+    (hr : recs.length = n * p) (hg : tgts.length = n * t)
+    (md : Nat → Nat → μ) (sc : Nat → Nat → List σ)
+    (hfit : ∀ i, i < k → ∀ j (hj : j < params.length),
+      params[j] ((swapBlock recs i (n / k) p).drop (n / k * p), (swapBlock tgts i (n / k) t).drop (n / k * t))
+        = .ok (md i j))
+    (hsc : ∀ i, i < k → ∀ j, j < params.length →
+      score (md i j) (((chunks (n / k * p) recs)[i]?).getD [], ((chunks (n / k * t) tgts)[i]?).getD [])
+        = .ok (sc i j))
+    (hshape : ∀ i, i < k → ∀ j, j < params.length → (sc i j).length = nt) :
+    ∃ o res, crossValidateOn true true n k p t recs tgts params score nt = some o ∧
+      o.result = .ok res ∧ o.finalR = recs ∧ o.finalT = tgts ∧ res.length = params.length ∧
+      ∀ j c, j < params.length → c < nt →
+        entry res j c = ((List.range k).map fun i => ((sc i j)[c]?).getD 0).sum / (k : σ) := by
+  have hfs : 0 < n / k := Nat.div_pos hn hk
+  have hkn : k * (n / k) ≤ n := Nat.mul_div_le n k
+  -- the validation chunk lists have exactly k entries
+  have hlenR : ((chunks (n / k * p) recs).take k).length = k := by
+    rw [List.length_take, chunks_length, Nat.min_eq_left]
+    rw [Nat.le_div_iff_mul_le (Nat.mul_pos hfs hp)]
+    have : k * (n / k * p) ≤ recs.length := by
+      rw [hr, ← Nat.mul_assoc]; exact Nat.mul_le_mul_right _ hkn
+    have := Nat.mul_pos hfs hp
+    omega
+  have hlenT : ((chunks (n / k * t) tgts).take k).length = k := by
+    rw [List.length_take, chunks_length, Nat.min_eq_left]
+    rw [Nat.le_div_iff_mul_le (Nat.mul_pos hfs ht)]
+    have : k * (n / k * t) ≤ tgts.length := by
+      rw [hg, ← Nat.mul_assoc]; exact Nat.mul_le_mul_right _ hkn
+    have := Nat.mul_pos hfs ht
+    omega
+  have hvR := eq_map_range_getD _ k [] hlenR
+  have hvT := eq_map_range_getD _ k [] hlenT
+  set m := params.length with hm
+  -- the folds, one per index
+  let folds := (List.range k).map fun i =>
+    scriptOf (params.map fun f => f ((swapBlock recs i (n / k) p).drop (n / k * p), (swapBlock tgts i (n / k) t).drop (n / k * t)))
+      (fun mdl => score mdl (((chunks (n / k * p) recs)[i]?).getD [], ((chunks (n / k * t) tgts)[i]?).getD []))
+  have hspec := cv_on_spec n k p t recs tgts params score nt hk hn hr hg
+  have hfolds : ((((List.range k).map fun i =>
+              ((swapBlock recs i (n / k) p).drop (n / k * p), (swapBlock tgts i (n / k) t).drop (n / k * t))).zip
+            (((chunks (n / k * p) recs).take k).zip ((chunks (n / k * t) tgts).take k))).map
+            fun (tr, va) => scriptOf (params.map fun f => f tr) (fun mdl => score mdl va)) = folds := by
+    rw [hvR, hvT, List.zip_map', List.zip_map', List.map_map]
+    apply List.map_congr_left
+    intro i hi
+    have hi' : i < k := List.mem_range.mp hi
+    simp only [Function.comp]
+    rw [List.getElem?_take_of_lt hi', List.getElem?_take_of_lt hi']
+  rw [hfolds] at hspec
+  -- every fold succeeds with its score rows
+  have hfold : ∀ i, i < k →
+      cvFold (scriptOf (params.map fun f => f ((swapBlock recs i (n / k) p).drop (n / k * p), (swapBlock tgts i (n / k) t).drop (n / k * t)))
+        (fun mdl => score mdl (((chunks (n / k * p) recs)[i]?).getD [], ((chunks (n / k * t) tgts)[i]?).getD []))).1
+        (scriptOf (params.map fun f => f ((swapBlock recs i (n / k) p).drop (n / k * p), (swapBlock tgts i (n / k) t).drop (n / k * t)))
+        (fun mdl => score mdl (((chunks (n / k * p) recs)[i]?).getD [], ((chunks (n / k * t) tgts)[i]?).getD []))).2
+      = .ok ((List.range m).map (sc i)) := by
+    intro i hi
+    rw [← cvFoldM_script]
+    unfold cvFoldM
+    have hfits : (params.map fun f => f ((swapBlock recs i (n / k) p).drop (n / k * p), (swapBlock tgts i (n / k) t).drop (n / k * t)))
+        = (List.range m).map fun j => (Except.ok (md i j) : Except ε μ) := by
+      apply List.ext_getElem?
+      intro j
+      by_cases hj : j < m
+      · simp only [List.getElem?_map, List.getElem?_eq_getElem (hm ▸ hj), Option.map_some,
+          List.getElem?_range hj]
+        rw [hfit i hi j (hm ▸ hj)]
+      · simp [hj, List.getElem?_eq_none (by omega : params.length ≤ j)]
+    rw [hfits, mapM_id_map, mapM_ok_map _ (md i) _ (fun _ _ => rfl)]
+    simp only []
+    rw [mapM_map']
+    exact mapM_ok_map _ (sc i) _ (fun j hj => hsc i hi j (List.mem_range.mp hj))
+  have hall : folds.mapM (fun f => cvFold f.1 f.2) = .ok ((List.range k).map fun i => (List.range m).map (sc i)) := by
+    simp only [folds]
+    rw [mapM_map']
+    exact mapM_ok_map _ _ _ (fun i hi => hfold i (List.mem_range.mp hi))
+  obtain ⟨res, hres, hlen, hent⟩ := cv_is_mean (ε := ε) k m nt folds _ hall (by
+    intro fe hfe
+    simp only [List.mem_map, List.mem_range] at hfe
+    obtain ⟨i, hi, rfl⟩ := hfe
+    refine ⟨by simp, ?_⟩
+    intro r hr'
+    simp only [List.mem_map, List.mem_range] at hr'
+    obtain ⟨j, hj, rfl⟩ := hr'
+    exact hshape i hi j hj)
+  refine ⟨_, res, hspec, hres, rfl, rfl, hlen, ?_⟩
+  intro j c hj hc
+  rw [hent j c hj hc, List.map_map]
+  congr 2
+  apply List.map_congr_left
+  intro i hi
+  simp [Function.comp, entry, hj]
+
+example : ∀ i, i < 2 → ∀ j (hj : j < [fun tr : List Nat × List Nat => (Except.ok tr.1.sum : Except String Nat)].length),
+    [fun tr : List Nat × List Nat => (Except.ok tr.1.sum : Except String Nat)][j]
+      ((swapBlock [0, 1, 2, 3] i (4 / 2) 1).drop (4 / 2 * 1), (swapBlock [10, 11, 12, 13] i (4 / 2) 1).drop (4 / 2 * 1))
+      = .ok (if i = 0 then 5 else 1) := by
+  intro i hi j hj
+  have hj0 : j = 0 := by simpa using hj
+  subst hj0
+  rcases i with _ | _ | i
+  · rfl
+  · rfl
+  · omega
+
 end LinfaSpec.Props.C01
